@@ -1480,10 +1480,13 @@ def check_fit(case, rec):
     guess = {"len_scale": ls * case["start"][0], "var": case["var"] * case["start"][1]}
     # optimiser accuracy is C10's subject: ask scipy for tight termination so
     # that what remains is the geometry (chord vs arc differ by per cents here)
+    # the caller keeps the lag / variogram arrays (e.g. to try several models on them): a fit reads them, a second model fitted to the
+    # very same arrays ends where the first one did
+    x_keep, y_keep = x.copy(), y.copy()
     para, _pcov, r2_lib = lib(
         model.fit_variogram,
-        x.copy(),
-        y.copy(),
+        x_keep,
+        y_keep,
         init_guess=guess,
         curve_fit_kwargs={"ftol": 1e-13, "xtol": 1e-13, "gtol": 1e-13},
         return_r2=True,
@@ -1491,6 +1494,14 @@ def check_fit(case, rec):
         _tags=tags,
         **kw,
     )
+    model_b = lib(cls, latlon=True, geo_scale=g, _what="lat-lon model construction", _tags=tags, **case["opt"])
+    lib(model_b.fit_variogram, x_keep, y_keep, init_guess=dict(guess), curve_fit_kwargs={"ftol": 1e-13, "xtol": 1e-13, "gtol": 1e-13}, _what="fit_variogram (second model, same arrays)", _tags=tags, **kw)
+    rec.label("second_fit_on_the_same_arrays")
+    require(bool(np.array_equal(x_keep, x)) and bool(np.array_equal(y_keep, y))
+            and abs(float(model_b.len_scale) - float(model.len_scale)) <= 1e-9 * float(model.len_scale) and abs(float(model_b.var) - float(model.var)) <= 1e-9 * float(model.var),
+            f"a second lat-lon model fitted to the same lag / variogram arrays (geo_scale={g}) ends at len_scale {float(model_b.len_scale):.8g}, var {float(model_b.var):.8g}; "
+            f"the first one at {float(model.len_scale):.8g}, {float(model.var):.8g} (lags unchanged: {bool(np.array_equal(x_keep, x))})",
+            dict(tags, kind="fit_reuses_arrays"))
     sill = case["var"] + nug
     # the reported score belongs to the same geometry: residuals of the fitted Yadrenko variogram at the great-circle lags
     fit_o = lib(cls, dim=3, var=model.var, len_scale=model.len_scale, nugget=model.nugget, _what="reference model", _tags=tags, **case["opt"])
